@@ -244,19 +244,27 @@ def check_bigfloat(ctx, case):
         ctx.nontrivial(('bigfloat', fmt, rounding, case['hex'], route))
     ctx.sample(case, exp in (lo, hi))
     cont = case.get('cont', 'scalar')
-    obj = v if cont == 'scalar' else np.array([v, 0.0])
+    # in an array the huge value travels next to an ordinary fractional neighbour, which must still be rounded properly
+    nb = float(C.v_from_x4(int(case.get('nb_x4', 0)), f))
+    exp_nb = M.quant(Fraction(nb), s, w, f, rounding, 'saturate')[0]
+    obj = v if cont == 'scalar' else np.array([v, nb])
     ok, res = ctx.guard(case, store, fmt, (rounding, 'saturate'), obj, route, 'scalar' if cont == 'scalar' else '1d', 2, (1, 2),
                         sig_prefix='bigfloat/%s/' % route)
     if not ok:
         return
     x, sel = res
     try:
-        got = stored_codes(x, sel)[0]
+        codes_ = stored_codes(x, sel)
+        got = codes_[0]
     except ValueError as e:
         ctx.fail('bigfloat/%s/non-integer-code' % route, case, {'error': str(e)})
         return
     if got != exp:
         ctx.fail('bigfloat/%s/code' % route, case, {'expected': exp, 'got': got, 'v': v})
+        return
+    if cont != 'scalar' and codes_[1] != exp_nb:
+        ctx.fail('bigfloat/%s/neighbour-code/%s' % (route, 'huge>=2^64' if abs(v) >= 2.0 ** 64 else 'huge<2^64'), case,
+                 {'neighbour': nb, 'expected': exp_nb, 'got': codes_[1], 'v': v})
 
 
 def check_complex(ctx, case):
@@ -455,7 +463,8 @@ def st_bigfloat_case(draw):
                          2.0 ** 64, -2.0 ** 64, 2.0 ** 62, 1.7976931348623157e308, -1.7976931348623157e308,
                          9.3e18, -9.3e18, 1.85e19, -1.85e19])))
     return {'check': 'bigfloat', 'fmt': list(fmt), 'hex': float(v).hex(), 'route': draw(st.sampled_from(ROUTES)),
-            'rounding': draw(st.sampled_from(C.ROUNDINGS)), 'cont': draw(st.sampled_from(['scalar', '1d']))}
+            'rounding': draw(st.sampled_from(C.ROUNDINGS)), 'cont': draw(st.sampled_from(['scalar', '1d'])),
+            'nb_x4': C.clamp_sig_bits(draw(C.st_x4(fmt, limit_bits=50)), 53)}
 
 
 def task_hyp_bigfloat(ctx, n):
